@@ -73,7 +73,7 @@ def case_strategy(draw):
         c["upper"] = draw(st.sampled_from([None, "above", "max"]))
     if which == "bs_invalid":
         c["invalid"] = draw(st.sampled_from(["df_too_small", "negative_degree", "float_degree", "df_knots_inconsistent", "knots_outside", "lower_gt_upper",
-                                              "neither", "knots_2d", "float_df", "lower_above_data", "upper_below_data"]))
+                                              "neither", "knots_2d", "float_df", "numpy_float_df", "lower_above_data", "upper_below_data"]))
     c["later_frac"] = draw(st.lists(st.integers(0, 100), min_size=1, max_size=8))
     c["int_dtype"] = draw(st.booleans())
     return c
@@ -258,6 +258,8 @@ def judge(ctx, case):
             kw["knots"] = [[float(np.median(x))]]
         elif inv == "float_df":
             kw["df"] = degree + 2.5
+        elif inv == "numpy_float_df":
+            kw["df"] = np.float64(degree + 2.5)  # a fraction is no number of columns, whatever type carries it
         elif inv in ("lower_above_data", "upper_below_data"):
             # only one bound given, on the wrong side of the data, and no inner knot that could trip another check
             kw["df"] = max(1, degree + (1 if intercept else 0))
